@@ -35,12 +35,53 @@ func gen(tier string, r *lib.Rand, emit func(string)) {
 			}
 		}
 	}
+	// (b') several regions of high liveness in sequence, with widths straddling machine-word sizes:
+	// each region computes w values that all stay alive until they are summed up; the next region
+	// starts from that sum, so the allocator must re-use every one of the w variables.
+	widthSets := [][]int{{3, 3}, {20, 19, 21}, {63, 63}, {64, 64}, {65, 65}, {66, 64, 66}, {70, 3, 70}, {40, 90}, {90, 40, 90}}
+	if tier == "thorough" {
+		widthSets = append(widthSets, []int{130, 129, 130}, []int{257, 256, 257}, []int{64, 65, 64, 65, 64})
+	}
+	for _, ws := range widthSets {
+		emit(alloclib.AllocCase(wide(ws), good[0]))
+	}
+
 	// (c) outside the domain: dead values, ill-formed programs
 	for i := 0; i < nrand/3; i++ {
 		p := alloclib.RandomProgram(r, r.Range(1, maxlen), []int{10, 30, 60}[r.Intn(3)])
 		emit(alloclib.AllocCase(p, good[r.Intn(len(good))]))
 		emit(alloclib.AllocCase(alloclib.IllFormed(r, alloclib.RandomProgram(r, r.Range(1, 10), 20)), good[r.Intn(len(good))]))
 	}
+}
+
+// wide builds a program of consecutive regions: region i computes widths[i] values from the
+// region's base value, all alive at once, then sums them; the sum is the next region's base.
+func wide(widths []int) alloclib.Prog {
+	var p alloclib.Prog
+	next, base := 1, 0
+	op := func(i int) alloclib.Opd { return alloclib.Opd{Idx: i} }
+	for _, w := range widths {
+		vs := []int{}
+		prev := base
+		for k := 0; k < w; k++ {
+			if prev == base {
+				p = append(p, alloclib.Ins{Kind: 'd', Out: op(next), X: op(base)})
+			} else {
+				p = append(p, alloclib.Ins{Kind: 'a', Out: op(next), X: op(base), Y: op(prev)})
+			}
+			vs = append(vs, next)
+			prev = next
+			next++
+		}
+		acc := vs[0]
+		for k := 1; k < w; k++ {
+			p = append(p, alloclib.Ins{Kind: 'a', Out: op(next), X: op(acc), Y: op(vs[k])})
+			acc = next
+			next++
+		}
+		base = acc
+	}
+	return p
 }
 
 func oracle(c, res string) string { return alloclib.CheckAllocation(c, res, true) }
